@@ -223,6 +223,9 @@ func (a *AliveDialerSet) NotifyLatencyChange(dialer *Dialer, alive bool) {
 		sortingLatency time.Duration
 		hasLatency     bool
 		minPolicy      bool
+		// revivedFromNotAlive is true when this notification moves the dialer
+		// from NOT ALIVE back into the alive set.
+		revivedFromNotAlive bool
 	)
 
 	switch a.selectionPolicy {
@@ -244,6 +247,7 @@ func (a *AliveDialerSet) NotifyLatencyChange(dialer *Dialer, alive bool) {
 		} else {
 			// Dialer: not alive -> alive.
 			if index == -NotAlive {
+				revivedFromNotAlive = true
 				if a.log.IsLevelEnabled(logrus.InfoLevel) {
 					a.log.WithFields(logrus.Fields{
 						"dialer": dialer.property.Name,
@@ -379,6 +383,16 @@ func (a *AliveDialerSet) NotifyLatencyChange(dialer *Dialer, alive bool) {
 	} else if alive && minPolicy && a.minLatency.dialer == nil {
 		// Use first dialer if no dialer has alive state (usually happen at the very beginning).
 		a.minLatency.dialer = dialer
+		if revivedFromNotAlive {
+			// The group had lost its last alive dialer (aliveChangeCallback(false)
+			// was reported) and now regains one that has no latency sample yet,
+			// e.g. data UDP revived by real traffic or the reload selection floor.
+			// Report the group alive again, otherwise the kernel connectivity
+			// bit stays cleared although a dialer is selectable.
+			a.mu.Unlock()
+			a.aliveChangeCallback(true)
+			a.mu.Lock()
+		}
 		if a.log.IsLevelEnabled(logrus.InfoLevel) {
 			a.log.WithFields(logrus.Fields{
 				"group":   a.dialerGroupName,
